@@ -117,13 +117,13 @@ def classify_parse(a, o):
 
 
 # ------------------------------------------------------------------ end to end
-def corpus_roundtrip():
+def corpus_roundtrip(pattern="roundtrip-*.json"):
     """recorded `bind.roundtrip` inputs (corpus/C01/roundtrip-*.json): shapes the random generator meets rarely"""
     import glob
     import os
 
     root = os.path.join(os.path.dirname(os.path.dirname(os.path.abspath(__file__))), "corpus", "C01")
-    for path in sorted(glob.glob(os.path.join(root, "roundtrip-*.json"))):
+    for path in sorted(glob.glob(os.path.join(root, pattern))):
         a = json.load(open(path))
         a.pop("_why", None)
         u = B.Universe(a["desc"])
